@@ -42,8 +42,9 @@ type End struct {
 	Tags      map[string]string `json:"tags,omitempty"` // categorical descriptors (version, strategy, ...), histogrammed by the driver
 	SimNs     int64             `json:"sim_ns,omitempty"`
 	Diverged  string            `json:"diverged,omitempty"`
-	Sample    json.RawMessage   `json:"sample,omitempty"` // written for a few runs: the actual case
-	Config    json.RawMessage   `json:"config,omitempty"` // on violation (or verbose): the fully expanded configuration
+	WallUs    int64             `json:"wall_us,omitempty"` // measured by the child around the run; informational only
+	Sample    json.RawMessage   `json:"sample,omitempty"`  // written for a few runs: the actual case
+	Config    json.RawMessage   `json:"config,omitempty"`  // on violation (or verbose): the fully expanded configuration
 	Choices   []int             `json:"choices,omitempty"`
 	Ops       json.RawMessage   `json:"ops,omitempty"`
 }
